@@ -44,6 +44,7 @@ workers at load >100 (29 min wall there; ~2.5 min expected on 16 idle cores).
 import itertools
 import json
 import os
+import pickle
 import sys
 import traceback
 
@@ -562,15 +563,38 @@ class Oracle:
                 nt.add(sig)
         return True
 
-    def judge_rgb_value(self, d, rgb, T):
-        """clauses of conv() applied to a result value d of converting RGB colour rgb to T, without
-        calling the code under test (used on what a thread got).  -> [(class, detail)]"""
-        r, g, b = rgb
+    def judge_value(self, d, ref, T):
+        """clauses of conv() applied to a result value d of converting the colour with reference value
+        ref (rgb / idx / std) to T, without calling the code under test (used on what a thread got).
+        -> [(class, detail)]"""
         s, prob = self.sem(d)
         if s is None:
             return [("gamut", "result %s" % prob)]
         k0 = s[0]
         out = []
+        ik = ref[0]
+        if ik != "rgb":
+            n0 = ref[1]
+            if T in ("STANDARD", "WINDOWS") and ik == "idx":
+                if k0 != "n16":
+                    return [("gamut", "%s is not a colour of the %s system" % (_show(d), T.lower()))]
+                near = self.near.get(T)
+                if near is not None:
+                    trip = XTERM[n0]
+                    dl = near.d2(*trip)
+                    m = min(dl)
+                    if dl[s[1]] != m:
+                        best = dl.index(m)
+                        out.append(("nearest", "colour %d %r -> %s entry %d %r at squared redmean distance %d; entry %d %r is at %d"
+                                    % (n0, trip, T.lower(), s[1], near.pal[s[1]], dl[s[1]], best, near.pal[best], m)))
+            else:
+                if k0 not in ("n16", "n256"):
+                    return [("gamut", "%s is not an indexed colour" % _show(d))]
+                if s[1] != n0:
+                    out.append(("unchanged", "colour %d became %s" % (n0, _show(d))))
+            return out
+        rgb = (ref[1], ref[2], ref[3])
+        r, g, b = rgb
         if T == "TRUECOLOR":
             if s != ("rgb", r, g, b):
                 out.append(("unchanged", "%r became %s" % (rgb, _show(d))))
@@ -798,20 +822,62 @@ def _part_hist(sh, res):
     res.sample({"part": "hist", "seq": [list(H_EVENTS[e]) for e in (0, 13, 9)]}, limit=1)
 
 
+# ------------------------------------------------------------------ cold children
+# Lazily built module state (lookup tables, instance attributes) survives cache_clear().  A
+# pool worker of this check handles exactly one shard (FRESH_WORKERS) and the shards of the
+# "threads" and "fault" parts never convert a colour themselves: every execution runs in a
+# child forked from that still-cold worker, so each one starts from the state of a process
+# that has imported rich and converted nothing.
+FRESH_WORKERS = True
+
+
+def _in_child(fn):
+    r, w = os.pipe()
+    pid = os.fork()
+    if pid == 0:
+        try:
+            os.close(r)
+            try:
+                data = pickle.dumps(("ok", fn()))
+            except BaseException:
+                data = pickle.dumps(("err", traceback.format_exc()))
+            with os.fdopen(w, "wb") as f:
+                f.write(data)
+        finally:
+            os._exit(0)
+    os.close(w)
+    with os.fdopen(r, "rb") as f:
+        data = f.read()
+    os.waitpid(pid, 0)
+    st, out = pickle.loads(data) if data else ("err", "child process died without an answer")
+    if st != "ok":
+        raise MachineryError("child failed: %s" % out)
+    return out
+
+
 # ------------------------------------------------------------------ part "threads" (E3)
-# Two real threads convert colours at the same time through the process-wide palettes and
-# memos; vf/sched.py enumerates every interleaving of the executed lines of rich.color and
-# rich.palette with <= bound preemptions.  Each thread's result, and the (memoised) answer
-# to the same question asked afterwards, must satisfy the sequential clauses.
+# Two real threads convert colours at the same time through the process-wide palettes, memos and
+# whatever module state the conversion keeps; vf/sched.py enumerates every interleaving of the
+# executed lines of rich.color and rich.palette with <= bound preemptions.  Each thread's result,
+# and the (memoised) answer to the same question asked afterwards, must satisfy the sequential
+# clauses.
+_RGB = lambda r, g, b: ("rgb", r, g, b, "rgb")      # noqa: E731
+_IDX = lambda n: ("idx", n, "ansi")                 # noqa: E731
 T_HARNESS = {
     # id: (colour A, system A, colour B, system B)
-    "same-palette": ((255, 85, 85), "STANDARD", (85, 85, 255), "STANDARD"),    # exact entries 9 and 12
-    "same-colour": ((200, 30, 30), "STANDARD", (200, 30, 30), "STANDARD"),
-    "std-vs-win": ((255, 85, 85), "STANDARD", (59, 120, 255), "WINDOWS"),      # exact entries 9 / 12
-    "win-win": ((231, 72, 86), "WINDOWS", (12, 12, 12), "WINDOWS"),            # exact entries 9 / 0
-    "to-256": ((255, 85, 85), "EIGHT_BIT", (128, 128, 128), "EIGHT_BIT"),      # cube path / grey path
+    "same-palette": (_RGB(255, 85, 85), "STANDARD", _RGB(85, 85, 255), "STANDARD"),    # exact entries 9 and 12
+    "same-colour": (_RGB(200, 30, 30), "STANDARD", _RGB(200, 30, 30), "STANDARD"),
+    "std-vs-win": (_RGB(255, 85, 85), "STANDARD", _RGB(59, 120, 255), "WINDOWS"),      # exact entries 9 / 12
+    "win-win": (_RGB(231, 72, 86), "WINDOWS", _RGB(12, 12, 12), "WINDOWS"),            # exact entries 9 / 0
+    "to-256": (_RGB(255, 85, 85), "EIGHT_BIT", _RGB(128, 128, 128), "EIGHT_BIT"),      # cube path / grey path
+    "idx-std": (_IDX(196), "STANDARD", _IDX(231), "STANDARD"),
+    "idx-win": (_IDX(196), "WINDOWS", _IDX(231), "WINDOWS"),
+    "idx-vs-rgb": (_IDX(196), "STANDARD", _RGB(85, 85, 255), "STANDARD"),
 }
-T_ORDER = ("same-palette", "same-colour", "std-vs-win", "win-win", "to-256")
+T_ORDER = ("idx-std", "idx-win", "idx-vs-rgb", "same-palette", "same-colour", "std-vs-win", "win-win", "to-256")
+T_MAX_EXECS = 4000          # a clean harness has ~425 schedules; beyond this the shard reports capped
+T_STOP_AFTER_VIOLATIONS = 12
+T_SHARD_BUDGET_S = 120
 _T_CODES = []
 
 
@@ -823,6 +889,12 @@ def _t_bound(hid, tier):
     if tier == "thorough" and hid in ("same-palette", "std-vs-win"):
         return 2
     return 1
+
+
+def _t_forked(hid, bound):
+    """bound-2 palette harnesses (thorough) run in the worker (memos cleared per execution); all others
+    run every execution in a cold child"""
+    return not (bound == 2 and hid != "to-256")
 
 
 def _t_events(on):
@@ -842,25 +914,24 @@ def _t_events(on):
 
 
 def _t_make(hid):
-    ca, sa, cb, sb = T_HARNESS[hid]
+    da, sa, db, sb = T_HARNESS[hid]
     O = oracle()
 
     def make(s):
         O.clear_caches()
-        Color = O.Color
         out = {}
 
         def A():
-            out["A"] = Color.from_rgb(*ca).downgrade(O.SYS[sa])
+            out["A"] = O.build(da).downgrade(O.SYS[sa])
 
         def B():
-            out["B"] = Color.from_rgb(*cb).downgrade(O.SYS[sb])
+            out["B"] = O.build(db).downgrade(O.SYS[sb])
 
         def observe():
             again = {}
-            for tid, c, sy in (("A", ca, sa), ("B", cb, sb)):
+            for tid, dsc, sy in (("A", da, sa), ("B", db, sb)):
                 try:
-                    again[tid] = Color.from_rgb(*c).downgrade(O.SYS[sy])
+                    again[tid] = O.build(dsc).downgrade(O.SYS[sy])
                 except Exception as e:
                     again[tid] = e
             return {"got": dict(out), "again": again}
@@ -870,7 +941,7 @@ def _t_make(hid):
 
 def _t_judge(hid, s, obs):
     """-> (signature, [(key, detail)])"""
-    ca, sa, cb, sb = T_HARNESS[hid]
+    da, sa, db, sb = T_HARNESS[hid]
     O = oracle()
     vio = []
     if s.problem:
@@ -878,8 +949,9 @@ def _t_judge(hid, s, obs):
     for tid, e in s.errors:
         vio.append(("threads/exception/%s" % type(e).__name__, "thread %s raised %r" % (tid, e)))
     nums = []
-    for tid, c, sy in (("A", ca, sa), ("B", cb, sb)):
-        tag = "rgb-to-%s" % sy.lower()
+    for tid, dsc, sy in (("A", da, sa), ("B", db, sb)):
+        ref = O.ref(dsc)
+        tag = "%s-to-%s" % (ref[0], sy.lower())
         if tid not in obs["got"]:
             nums.append(None)
             if not s.problem and not any(t == tid for t, _ in s.errors):
@@ -887,13 +959,14 @@ def _t_judge(hid, s, obs):
             continue
         d = obs["got"][tid]
         nums.append(getattr(d, "number", None))
-        for cls, detail in O.judge_rgb_value(d, c, sy):
+        for cls, detail in O.judge_value(d, ref, sy):
             vio.append(("threads/%s/%s" % (cls, tag), "thread %s: %s" % (tid, detail)))
         a = obs["again"][tid]
         if isinstance(a, Exception):
-            vio.append(("threads/requery-exception/%s" % type(a).__name__, "asking again for %r -> %s: %r" % (c, sy, a)))
+            vio.append(("threads/requery-exception/%s" % type(a).__name__,
+                        "asking again for %r -> %s: %r" % (dsc, sy, a)))
             continue
-        for cls, detail in O.judge_rgb_value(a, c, sy):
+        for cls, detail in O.judge_value(a, ref, sy):
             vio.append(("threads/memoised/%s/%s" % (cls, tag), "asked again after the threads finished: %s" % detail))
         if not (type(a) is type(d) and a == d):
             vio.append(("threads/requery-differs/%s" % tag,
@@ -902,26 +975,92 @@ def _t_judge(hid, s, obs):
     return ("threads", hid, tuple(nums), min(dev, 3), bool(vio)), vio
 
 
+def _t_child(hid, prefix):
+    """one execution in a cold child -> plain data"""
+    from .. import sched
+    _t_events(True)
+    s, obs = sched.run_once(_t_make(hid), prefix, "line", 0)
+    sig, vio = _t_judge(hid, s, obs)
+    return {"choices": list(s.choices), "cp": [tuple(c) for c in s.cp], "sig": sig, "vio": vio,
+            "problem": s.problem, "steps": s.steps}
+
+
+def _explore_forked(hid, bound, on_exec, stop):
+    """sched.explore() with every execution in its own cold child.  on_exec(record) -> False to stop."""
+    stats = {"executions": 0, "max_choice_points": 0, "complete": True}
+
+    def dev_before(rec, i):
+        cp, ch = rec["cp"], rec["choices"]
+        return sum(1 for j in range(i) if ch[j] != 0 and (cp[j][1] or cp[j][2][ch[j]] == "fire"))
+
+    def children(rec, prefix):
+        out = []
+        cp = rec["cp"]
+        for i in range(len(prefix), len(cp)):
+            dev = dev_before(rec, i)
+            for alt in range(1, cp[i][0]):
+                c = dev + (1 if (cp[i][1] or cp[i][2][alt] == "fire") else 0)
+                if c <= bound:
+                    out.append(rec["choices"][:i] + [alt])
+        return out
+
+    stack = [[]]
+    while stack:
+        prefix = stack.pop()
+        if stop() or stats["executions"] >= T_MAX_EXECS:
+            stats["complete"] = False
+            break
+        rec = _in_child(lambda: _t_child(hid, prefix))
+        if rec["problem"] and rec["problem"].startswith("divergence"):
+            raise MachineryError("schedule replay diverged: %s prefix=%r" % (rec["problem"], prefix))
+        stats["executions"] += 1
+        stats["max_choice_points"] = max(stats["max_choice_points"], len(rec["choices"]))
+        if on_exec(rec) is False:
+            stats["complete"] = False
+            break
+        kids = children(rec, prefix)
+        kids.reverse()
+        stack.extend(kids)
+    return stats
+
+
 def _part_threads(sh, tier, res):
     from .. import sched
+    import time
     hid, bound = sh["h"], sh["bound"]
-    _t_events(True)
-    try:
-        def judge(s, obs):
-            sig, vio = _t_judge(hid, s, obs)
-            res.evaluations += 4            # two conversions in threads + two re-queries, all judged
-            res.sig(sig, nontrivial=sig[3] > 0)
-            res.count("choice_points", len(s.choices))
-            if vio:
-                ch = list(s.choices)
-                while ch and ch[-1] == 0:       # the default choice after the prefix is 0 anyway
-                    ch.pop()
-                for key, detail in vio:
-                    res.violate(key, {"part": "threads", "h": hid, "choices": ch}, detail)
-        st = sched.explore(_t_make(hid), bound, judge, granularity="line", timeout_budget=0,
-                           first_level=(sh["i"], sh["n"]), stop=deadline_passed)
-    finally:
-        _t_events(False)
+    t0 = time.time()
+
+    def record(sig, vio, choices):
+        res.evaluations += 4            # two conversions in threads + two re-queries, all judged
+        res.sig(sig, nontrivial=sig[3] > 0)
+        res.count("choice_points", len(choices))
+        if vio:
+            ch = list(choices)
+            while ch and ch[-1] == 0:       # the default choice after the prefix is 0 anyway
+                ch.pop()
+            for key, detail in vio:
+                res.violate(key, {"part": "threads", "h": hid, "choices": ch}, detail)
+
+    if _t_forked(hid, bound):
+        bad = [0]
+
+        def on_exec(rec):
+            record(rec["sig"], rec["vio"], rec["choices"])
+            if rec["vio"]:
+                bad[0] += 1
+            return bad[0] < T_STOP_AFTER_VIOLATIONS      # counterexamples found: no need to finish the space
+        st = _explore_forked(hid, bound, on_exec,
+                             lambda: deadline_passed() or time.time() - t0 > T_SHARD_BUDGET_S)
+    else:
+        _t_events(True)
+        try:
+            def judge(s, obs):
+                sig, vio = _t_judge(hid, s, obs)
+                record(sig, vio, s.choices)
+            st = sched.explore(_t_make(hid), bound, judge, granularity="line", timeout_budget=0,
+                               first_level=(sh["i"], sh["n"]), stop=deadline_passed)
+        finally:
+            _t_events(False)
     res.count("schedules", st["executions"])
     res.counters["max_choice_points_per_schedule"] = st["max_choice_points"]
     if st["complete"]:
@@ -931,20 +1070,124 @@ def _part_threads(sh, tier, res):
         res.capped = True
         res.count("threads_incomplete:%s:b%d" % (hid, bound))
     if sh["i"] == 0:
-        ca, sa, cb, sb = T_HARNESS[hid]
-        res.sample({"part": "threads", "harness": hid, "A": [list(ca), sa], "B": [list(cb), sb], "bound": bound}, limit=1)
+        da, sa, db, sb = T_HARNESS[hid]
+        res.sample({"part": "threads", "harness": hid, "A": [list(da), sa], "B": [list(db), sb], "bound": bound,
+                    "cold_child_per_schedule": _t_forked(hid, bound)}, limit=1)
 
 
 def _replay_threads(case, res):
-    from .. import sched
-    _t_events(True)
-    try:
-        s, obs = sched.run_once(_t_make(case["h"]), case["choices"], "line", 0)
-    finally:
-        _t_events(False)
-    _sig, vio = _t_judge(case["h"], s, obs)
-    for key, detail in vio:
+    rec = _in_child(lambda: _t_child(case["h"], list(case["choices"])))
+    for key, detail in rec["vio"]:
         res.violate(key, case, detail)
+
+
+# ------------------------------------------------------------------ part "fault" (E4)
+# The first conversion of a cold process is cut short by an exception (a caught Ctrl-C): at the
+# k-th execution of Palette.match, or at the k-th executed line of rich.color, for every k of the
+# fault-free run.  The exception is caught, then all 256 indexed colours and a few RGB colours
+# are converted to every system and judged: nothing half-initialised may survive.
+F_FIRST = (_IDX(196), _IDX(16), _RGB(255, 85, 85))
+F_SYSTEMS = ("STANDARD", "WINDOWS", "EIGHT_BIT")
+F_RGB_AFTER = [(0, 0, 0), (255, 255, 255), (255, 85, 85), (85, 85, 255), (128, 128, 128), (95, 0, 0), (12, 200, 77)]
+F_MAX_K = 1500
+F_TOOL = 3
+
+
+class InjectedFault(BaseException):
+    """stands for KeyboardInterrupt: not an Exception, so no `except Exception` of the library hides it"""
+
+
+def _f_child(first, T, kind, k):
+    """cold child: arm the fault (k = 0: only count), run the first conversion, judge afterwards"""
+    import rich.color
+    import rich.palette
+    from .. import sched
+    O = oracle()
+    mon = sys.monitoring
+    state = {"n": 0, "armed": False}
+
+    def hit(*_a):
+        if state["armed"]:
+            state["n"] += 1
+            if state["n"] == k:
+                state["armed"] = False
+                raise InjectedFault("fault %s #%d" % (kind, k))
+
+    mon.use_tool_id(F_TOOL, "vf-c18-fault")
+    if kind == "match":
+        fn = rich.palette.Palette.match
+        code = getattr(fn, "__wrapped__", fn).__code__
+        mon.register_callback(F_TOOL, mon.events.PY_START, hit)
+        mon.set_local_events(F_TOOL, code, mon.events.PY_START)
+        codes = [code]
+    else:
+        codes = list(sched._code_objects(rich.color))
+        mon.register_callback(F_TOOL, mon.events.LINE, hit)
+        for co in codes:
+            mon.set_local_events(F_TOOL, co, mon.events.LINE)
+    res = Result()
+    case = {"part": "fault", "first": list(first), "system": T, "kind": kind, "k": k}
+    c = O.build(first)
+    raised = other = None
+    state["armed"] = True
+    try:
+        c.downgrade(O.SYS[T])
+    except InjectedFault as e:
+        raised = e
+    except Exception as e:
+        other = e
+    finally:
+        state["armed"] = False
+        for co in codes:
+            mon.set_local_events(F_TOOL, co, 0)
+    n_points = state["n"]
+    if k == 0:
+        return {"points": n_points, "res": None}
+    res.evaluations += 1
+    if other is not None:
+        res.violate("fault/" + _crash_key(other), case, "first conversion with an injected fault raised %r" % (other,))
+    # the application caught the fault and carries on
+    O.part, O.ctx, O.case_base = "fault", {}, case
+    try:
+        for T2 in SYSTEMS:
+            for n in range(256):
+                desc = ("idx", n, "ansi")
+                O.conv(O.build(desc), O.ref(desc), T2, res, desc, True, keyprefix="fault/")
+            for rgb in F_RGB_AFTER:
+                desc = ("rgb",) + rgb + ("triplet",)
+                O.conv(O.build(desc), O.ref(desc), T2, res, desc, True, keyprefix="fault/")
+    finally:
+        O.case_base = None
+    res.sigs = {("fault", kind, T, first[0], raised is not None, bool(res.violations)): 1}
+    res.nontrivial = set(res.sigs) if raised is not None else set()
+    return {"points": n_points, "res": res, "raised": raised is not None}
+
+
+def _part_fault(sh, res):
+    first, T, kind = tuple(sh["first"]), sh["system"], sh["kind"]
+    K = _in_child(lambda: _f_child(first, T, kind, 0))["points"]
+    res.count("fault_points", K)
+    res.counters["max_fault_points_in_one_first_conversion"] = K
+    for k in range(1, min(K, F_MAX_K) + 1):
+        if deadline_passed():
+            res.capped = True
+            break
+        out = _in_child(lambda: _f_child(first, T, kind, k))
+        res.merge(out["res"])
+        res.count("fault_runs")
+        if not out["raised"]:
+            res.count("fault_not_raised")
+    if K > F_MAX_K:
+        res.capped = True
+        res.count("fault_points_beyond_cap", K - F_MAX_K)
+    if sh.get("sample"):
+        res.sample({"part": "fault", "first": list(first), "system": T, "kind": kind, "points": K}, limit=1)
+
+
+def _replay_fault(case, res):
+    out = _in_child(lambda: _f_child(tuple(case["first"]), case["system"], case["kind"], case["k"]))
+    if out["res"] is not None:
+        res.merge(out["res"])
 
 
 def finish(tier, seed, res):
@@ -964,14 +1207,20 @@ def _lattice_offset(seed):
 
 # ------------------------------------------------------------------ protocol
 def plan(tier, seed):
-    shards = [{"part": "meta"}, {"part": "small", "which": "indexed"}, {"part": "small", "which": "named"},
-              {"part": "greys"}, {"part": "pals"}]
-    shards += [{"part": "grid", "ri": i} for i in range(len(GRID))]
-    shards += [{"part": "hist", "i": i, "n": 8} for i in range(8)]
+    shards = []
+    for first in F_FIRST:
+        for T in F_SYSTEMS:
+            for kind in ("match", "line"):
+                shards.append({"part": "fault", "first": list(first), "system": T, "kind": kind,
+                               "sample": first == F_FIRST[0] and T == "STANDARD" and kind == "line"})
     for hid in T_ORDER:
         b = _t_bound(hid, tier)
-        n = 16 if (b == 2 and hid != "to-256") else 1
+        n = 1 if _t_forked(hid, b) else 16
         shards += [{"part": "threads", "h": hid, "bound": b, "i": i, "n": n} for i in range(n)]
+    shards += [{"part": "meta"}, {"part": "small", "which": "indexed"}, {"part": "small", "which": "named"},
+               {"part": "greys"}, {"part": "pals"}]
+    shards += [{"part": "grid", "ri": i} for i in range(len(GRID))]
+    shards += [{"part": "hist", "i": i, "n": 8} for i in range(8)]
     if tier == "quick":
         o = _lattice_offset(seed)
         shards += [{"part": "lattice", "r": r, "og": o[1], "ob": o[2]} for r in range(o[0], 256, LATTICE)]
@@ -1005,6 +1254,8 @@ def run_shard(sh, tier, seed):
         _part_hist(sh, res)
     elif p == "threads":
         _part_threads(sh, tier, res)
+    elif p == "fault":
+        _part_fault(sh, res)
     elif p == "lattice":
         _rgb_block([(sh["r"], g, b) for g in range(sh["og"], 256, LATTICE) for b in range(sh["ob"], 256, LATTICE)],
                    ("triplet",), res, sh, False, info=True)
@@ -1041,7 +1292,7 @@ def describe(tier, seed, res):
                 "and the memoised answer to the same question afterwards are judged by the sequential clauses; a schedule "
                 "is non-trivial when it contains a preemption."
                 % (len(oracle().names), H_DEPTH, len(H_COLOURS),
-                   ", ".join("%s: %r->%s || %r->%s" % ((h,) + T_HARNESS[h]) for h in T_ORDER),
+                   ", ".join("%s: %r->%s || %r->%s" % (h, T_HARNESS[h][0][1:-1], T_HARNESS[h][1], T_HARNESS[h][2][1:-1], T_HARNESS[h][3]) for h in T_ORDER),
                    ", ".join("%s: %d" % (h, _t_bound(h, tier)) for h in T_ORDER)),
         "assumptions": [
             "the three palettes in rich/_palettes.py are trusted as data (entries 16..255 of the 256-colour palette are checked against the xterm cube and grey ramp)",
@@ -1074,6 +1325,8 @@ def replay(case):
         _run_hist(tuple(case["seq"]), res)
     elif p == "threads":
         _replay_threads(case, res)
+    elif p == "fault":
+        _replay_fault(case, res)
     else:
         desc = tuple(case["desc"])
         O.clear_caches()
